@@ -121,6 +121,7 @@ def otpSplit (value : R) : List OtpItem → Nat → List (OtpOrder × R × Bool)
     else if d > 0 then (cs, (i, it, d) :: ws)
     else
       let q := min (-d) it.cur              -- (repaired) never more than is held: an odd lot that rounds up is sold whole
+      if q = 0 then (cs, ws) else           -- (repaired) nothing held: no order (a negative account value gives a negative target quantity)
       ((⟨i, false, q, if it.closeMkt then none else some it.closeP⟩, (if it.closeMkt then it.last else it.closeP), it.isCS) :: cs, ws)
 
 /-- the buying pass: each waiting entry in order against the running cash estimate -/
@@ -129,7 +130,7 @@ def otpBuys (costV : R → R) : R → List (Nat × OtpItem × Int) → List OtpO
   | est, (i, it, d) :: rest =>
     let cost := R.ofInt d * it.last + costV (R.ofInt d * it.last)
     if cost > est then
-      let d2 := roundOrderQty it.ins (est / it.last)
+      let d2 := roundOrderQty it.ins (R.pymax est 0 / it.last)      -- (repaired) a negative cash estimate counts as 0
       if d2 = 0 then otpBuys costV est rest
       else
         let cost2 := R.ofInt d2 * it.last + costV (R.ofInt d2 * it.last)
